@@ -752,6 +752,8 @@ def package_spec(draw):
         'kind': draw(st.sampled_from(['zip', 'zip', 'zip-unsafe', 'dir'])),
         'comps': comps,
         'reinstall': draw(st.booleans()),
+        # re-packaging: the source tree still carries the descriptor of an earlier release (other version, other module map)
+        'stale': draw(st.booleans()),
     }
 
 
@@ -807,10 +809,17 @@ def _package_child(base: str, spec) -> dict:
             manifest.write(src)
             package = prj.Package(src)
         else:
+            if spec.get('stale'):
+                stale = {} if package_modules(spec) else {'pipeline': 'stale_pipeline'}
+                prj.Manifest(spec['name'], '0.0.0.dev1', spec['package'], **stale).write(src)
             package = prj.Package.create(src, manifest, base / 'dist' / f"{spec['name']}-{spec['version']}.4ml")
     except Exception as exc:  # pylint: disable=broad-except
         return failed('create', exc)
     out['manifest'] = observe_manifest(package.manifest)
+    try:
+        out['reread'] = observe_manifest(prj.Package(package.path).manifest)
+    except Exception as exc:  # pylint: disable=broad-except
+        return failed('reread', exc)
     target = base / 'inst' / f"{spec['name']}-{spec['version']}"
     rounds = []
     for _ in range(2 if spec['reinstall'] else 1):
@@ -839,6 +848,7 @@ def check_package(ctx, spec):
     classes = ['package', f"package:{spec['kind']}"] + [f'package:{w}' for w in wheres]
     classes += ['package:no-evaluation'] if not spec['comps']['evaluation']['present'] else []
     classes += ['package:reinstall'] if spec['reinstall'] else []
+    classes += ['package:stale-descriptor'] if spec.get('stale') and spec['kind'] != 'dir' else []
     ctx.case(spec, nontrivial=bool(modules), classes=classes)
     base = _scratch(ctx, 'p')
     try:
@@ -853,10 +863,11 @@ def check_package(ctx, spec):
         ctx.fail(spec, f"package-{res['step']}-raises", f"{res['exc']}@{res['frame']}", f"{res['exc']}: {res['msg']}", tags)
         return
     expected = {'name': spec['name'], 'version': spec['version'], 'package': spec['package'], 'modules': modules}
-    bad = manifest_diff(res['manifest'], expected)
-    if bad:
-        ctx.fail(spec, 'package-manifest', 'differs', '; '.join(bad), tags)
-        return
+    for which, seen in (('created', res['manifest']), ('reread', res['reread'])):
+        bad = manifest_diff(seen, expected)
+        if bad:
+            ctx.fail(spec, 'package-manifest', 'differs', f'{which}: ' + '; '.join(bad), tags)
+            return
     marks = {comp: (spec['comps'][comp]['mark'] if spec['comps'][comp]['present'] else None) for comp in _COMPONENTS}
     for i, rnd in enumerate(res['rounds']):
         which = 'reinstall' if i else 'install'
